@@ -261,6 +261,15 @@ def hyp_run(ctx, check, strategy, body, max_examples, shrink=True, stateful_step
     except HarnessError:
         raise
     except BaseException as e:     # anything else escaping a body is a harness defect
+        if type(e).__name__ in ('FlakyFailure', 'Flaky', 'FlakyReplay') and 'violation' in last:
+            # the oracle was violated in one execution of the case and not in a repeat of it: the
+            # outcome depends on something outside the case (object identities, say).  The
+            # violation did happen against the real code, so it is reported, with its case.
+            case, message, sig = last['violation']
+            ctx.violations.append({'check': check, 'case': case, 'sig': sig,
+                                   'message': message + ' [seen in one of two executions of '
+                                   'this case]'})
+            return
         if type(e).__name__ in ('Unsatisfiable', 'FailedHealthCheck'):
             raise HarnessError(f'{check}: hypothesis: {e!r}')
         tb = traceback.format_exc()
